@@ -1,6 +1,7 @@
 package h
 
 import (
+	"github.com/XiXi-2024/xixi-kv/datafile"
 	"encoding/binary"
 	"math/rand"
 )
@@ -99,6 +100,19 @@ func PickLen(r *rand.Rand, off int64, klen int, limit int64) int {
 		return r.Intn(100)
 	case c < 85: // two to four blocks
 		return BlockSize + r.Intn(3*BlockSize)
+	case c < 89 && off > 0 && limit-off > 64 && limit <= 1<<21:
+		// the largest value that the engine's own size estimate still lets into the current file (and one more: the
+		// smallest that makes it rotate) - whatever the estimate is, the file must not outgrow the limit
+		lo, hi := 0, int(limit)
+		for lo < hi {
+			m := (lo + hi + 1) / 2
+			if off+int64(datafile.GetLogRecordDiskSize(klen, m)) <= limit {
+				lo = m
+			} else {
+				hi = m - 1
+			}
+		}
+		return lo + r.Intn(2)
 	case c < 93: // around the file-size limit
 		if limit < 400000 {
 			v := int(limit) - 64 + r.Intn(128)
